@@ -78,7 +78,7 @@ class SafeLearner(Learner):
 
         no_len         = lambda item: not hasattr(item,'__len__')
         is_hint        = lambda item: any(k in item for k in ['action','action_prob','pmf'])
-        is_all_dicts   = all(isinstance(p,dict) for p in pred)
+        is_all_dicts   = all(isinstance(p,abc.Mapping) for p in pred)
         is_dict_col    = isinstance(pred,dict)
         is_dict_col_kw = is_all_dicts and pred[0].keys() != pred[-1].keys() and len(pred)==2 and is_hint(pred[0])
         is_dict_row    = is_all_dicts and pred[0].keys() == pred[-1].keys()
@@ -204,7 +204,7 @@ class SafeLearner(Learner):
         if out is None:
             raise CobaException("The given prediction was none and did not match the batch_size.")
         is_hint = lambda item: any(k in item for k in ['action','action_prob','pmf'])
-        if all(isinstance(p,dict) for p in out) and out[0].keys() != out[-1].keys() and is_hint(out[0]): #pragma: no cover
+        if all(isinstance(p,abc.Mapping) for p in out) and out[0].keys() != out[-1].keys() and is_hint(out[0]): #pragma: no cover
             out = out[0]
         if isinstance(out,dict):
             is_valid = expected_len == len_or_0(next(iter(out.values())))
